@@ -25,7 +25,7 @@ type gen struct {
 }
 
 var allLeafKinds = []string{"base", "base", "plain", "retry", "fb", "retryfb", "func", "func", "func", "zst", "ovr", "val"}
-var payKinds = []string{"int", "str", "float", "map", "slice", "ptr", "struct", "nil", "nilptr", "nilmap", "nilslice", "errpay"}
+var payKinds = []string{"int", "str", "float", "map", "slice", "ptr", "struct", "nil", "nilptr", "nilmap", "nilslice", "errpay", "actempty"}
 var failKinds = []string{"sentinel", "wrapped", "custom", "wrapcustom", "ctxerr"}
 var actionAlphabet = []string{"default", "", "a", "ab", "b", "Default"} // "Default" differs from the default action by case only
 
@@ -508,6 +508,11 @@ func generate(prop, tier string, r *rand.Rand, idx int) any {
 		// counts is Done() and Err(), not how the context was made
 		sc.Ctx.Impl = pick(r, []string{"cause", "custom"})
 	}
+	if sc.Ctx.Kind == "cancel" && sc.Ctx.DeadlineUs == 0 && r.IntN(4) == 0 {
+		// the cancelled context also carries a deadline, ten hours away: it never
+		// fires, and a context with a deadline is cancelled like any other
+		sc.Ctx.DeadlineUs = 36_000_000_000 + int64(r.IntN(1000))
+	}
 	for _, n := range sc.Nodes {
 		if (n.Kind == "func" || n.Kind == "batch") && !n.Hand {
 			for i := range n.Settings {
@@ -884,23 +889,7 @@ func genC06(prop, tier string, r *rand.Rand) *Scn {
 	budget := 1 + r.IntN(2)
 	stop := r.IntN(4) == 0 // positional correspondence holds in either error mode
 	if r.IntN(8) == 0 {
-		// re-entrancy on one goroutine: an item's exec runs the same batch node
-		// object again (a recursive walk), with a shorter item list of its own;
-		// each run's post gets that run's results
-		g.failP = 0
-		k := 2 + r.IntN(5)
-		n := g.rootBatch(k, 1, 0, 0, false, []string{"results", "anys"})
-		n.HasFb = false
-		v1 := Visit{Post: Outcome{Action: "default"}}
-		for i := 1 + r.IntN(k); i > 0; i-- {
-			v1.Items = append(v1.Items, Item{Pay: pick(r, []string{"int", "str", "map"}), Exec: []Outcome{{Pay: g.pay()}}})
-		}
-		for i := range n.Visits[0].Items {
-			n.Visits[0].Items[i] = Item{Pay: pick(r, []string{"int", "str", "map"}), Exec: []Outcome{{Pay: g.pay()}}}
-		}
-		n.Visits[0].Items[r.IntN(k)].Exec[0].Nested = n.ID + 1
-		n.Visits = append(n.Visits, v1)
-		return g.sc
+		return reentrantBatch(g, r)
 	}
 	n := g.rootBatch(batchSize(r, 64), budget, pick(r, []int{0, 0, 10}), conc, stop, []string{"results", "anys", "ints", "strings", "single", "nil"})
 	g.timing(n)
@@ -918,6 +907,26 @@ func genC06(prop, tier string, r *rand.Rand) *Scn {
 		return g.sc
 	}
 	g.secondRun(n, budget, n.style(1) == 'R' && !stop)
+	return g.sc
+}
+
+// reentrantBatch: re-entrancy on one goroutine. An item's exec runs the same
+// batch node object again (a recursive walk), with a shorter item list of its
+// own; each run's post gets that run's results.
+func reentrantBatch(g *gen, r *rand.Rand) *Scn {
+	g.failP = 0
+	k := 2 + r.IntN(5)
+	n := g.rootBatch(k, 1, 0, 0, false, []string{"results", "anys"})
+	n.HasFb = false
+	v1 := Visit{Post: Outcome{Action: "default"}}
+	for i := 1 + r.IntN(k); i > 0; i-- {
+		v1.Items = append(v1.Items, Item{Pay: pick(r, []string{"int", "str", "map"}), Exec: []Outcome{{Pay: g.pay()}}})
+	}
+	for i := range n.Visits[0].Items {
+		n.Visits[0].Items[i] = Item{Pay: pick(r, []string{"int", "str", "map"}), Exec: []Outcome{{Pay: g.pay()}}}
+	}
+	n.Visits[0].Items[r.IntN(k)].Exec[0].Nested = n.ID + 1
+	n.Visits = append(n.Visits, v1)
 	return g.sc
 }
 
@@ -1273,7 +1282,10 @@ func (g *gen) anyNode(action string) *NodeSpec {
 			}
 		}
 		n.Visits[0].Post.Action = action
-		if n.Kind == "func" && n.style(1) == 'R' && n.style(2) == 'R' && g.chance(0.25) {
+		if hasPhase(n, 1) && g.chance(0.2) {
+			// the exec result happens to be an (empty) value of the library's Action type: just a payload
+			n.Visits[0].Exec = []Outcome{{Pay: "actempty"}}
+		} else if n.Kind == "func" && n.style(1) == 'R' && n.style(2) == 'R' && g.chance(0.25) {
 			// the exec function hands an error Result to post (nil error): still a successful run
 			n.Visits[0].Exec = []Outcome{{Fail: "errres"}}
 		} else if n.hasFallback() && hasPhase(n, 1) && g.chance(0.4) {
@@ -1407,6 +1419,9 @@ func genC17base(prop, tier string, r *rand.Rand) *Scn {
 		case 2:
 			g.sc.Root = g.tree(1+r.IntN(4), 1+r.IntN(2), 0.25)
 		default:
+			if r.IntN(8) == 0 {
+				return reentrantBatch(g, r) // what post receives is what this run's execs returned
+			}
 			conc := r.IntN(4)
 			// payloads are handed on unchanged in either error mode (for every item that is processed)
 			n := g.rootBatch(batchSize(r, 8), 1+r.IntN(3), 0, conc, r.IntN(3) == 0, []string{"results", "anys", "ints", "strings", "single"})
@@ -1608,6 +1623,31 @@ func genC20(prop, tier string, r *rand.Rand) *Scn {
 	}
 	g.waits = []int{wait}
 	var n *NodeSpec
+	if !cancelInWait && r.IntN(8) == 0 {
+		// a self-loop in a flow re-runs the node at once: the configured wait
+		// belongs between a failed attempt and the next one, nowhere else
+		for {
+			n = g.leaf(2 + r.IntN(2))
+			if n.config().Retries >= 2 {
+				break
+			}
+			g.sc.Nodes = g.sc.Nodes[:len(g.sc.Nodes)-1]
+		}
+		n.Settings = []Setting{{Param: "retries", Form: "opt", Val: budget}, {Param: "wait", Form: "opt", Val: pick(r, []int{10, 20, 50})}}
+		for v := range n.Visits {
+			n.Visits[v].Prep.Fail = ""
+			n.Visits[v].Post = Outcome{Action: "again"}
+			if g.chance(0.7) {
+				n.Visits[v].Exec = []Outcome{{Pay: g.pay()}}
+			}
+		}
+		n.Visits[len(n.Visits)-1].Post.Action = "done"
+		f := &NodeSpec{ID: len(g.sc.Nodes), Kind: "flow", Start: n.ID, Conns: []Conn{{From: n.ID, Action: "again", To: n.ID}}}
+		g.sc.Nodes = append(g.sc.Nodes, f)
+		g.sc.Root = f.ID
+		g.sc.Runs = 1
+		return g.sc
+	}
 	if r.IntN(2) == 0 {
 		for {
 			n = g.leaf(1)
